@@ -14,10 +14,7 @@ pub struct Utf8Error;
 pub struct JsonError;
 /// the bytes of a string slice
 pub uninterp spec fn str_bytes(s: &str) -> Seq<u8>;
-/// the bytes `String -> Vec<u8>` (`.into()`) yields
-pub uninterp spec fn string_bytes(s: String) -> Seq<u8>;
-/// the JSON text serde_json::to_string produces for a value
-pub uninterp spec fn json_text<T>(v: T) -> String;
+pub use axw::{string_bytes, json_text};
 
 pub mod str {
     use super::*;
@@ -40,13 +37,23 @@ pub mod serde_json {
 }
 pub mod axw {
 use vstd::prelude::*;
-use super::*;
+use super::Version;
+use super::enc::{decodable, decode};
+/// the bytes `String -> Vec<u8>` (`.into()`) yields
+pub uninterp spec fn string_bytes(s: String) -> Seq<u8>;
+/// the JSON text serde_json::to_string produces for a value
+pub uninterp spec fn json_text<T>(v: T) -> String;
+/// relation between the argument and the result of `.into()`
+pub uninterp spec fn into_post<T, U>(x: T, r: U) -> bool;
+/// instance String -> Vec<u8>: the UTF-8 bytes of the string
+pub broadcast axiom fn axiom_into_string_bytes(s: String, r: Vec<u8>)
+    ensures #[trigger] into_post::<String, Vec<u8>>(s, r) ==> r@ == string_bytes(s);
 /// A6: what a replica serialises decodes to the same operations (serde round trip through UTF-8 JSON)
 pub broadcast axiom fn axiom_version_round_trip(v: Version)
     ensures decodable(#[trigger] string_bytes(json_text(v))) && decode(string_bytes(json_text(v))) == v.operations@;
 }
-/// `String -> Vec<u8>` conversion (`.into()`); rule R16 rewrites `E.into()` in a `let history_segment = ...` to this
+/// rule R16 rewrites `E.into()` to `into_conv(E)`; what a conversion yields is fixed per instance by an axiom
 #[verifier::external_body]
-pub fn string_into_bytes(s: String) -> (r: Vec<u8>)
-    ensures r@ == string_bytes(s)
-{ s.into() }
+pub fn into_conv<T, U: From<T>>(x: T) -> (r: U)
+    ensures axw::into_post(x, r)
+{ x.into() }
